@@ -884,3 +884,286 @@ Proof.
         [exact I | reflexivity | discriminate | intros _ _; exact I | try discriminate; try (intros []); try (intros; exact I)
          | intros rest; cbn [heap_run]; perm_refl]).
 Qed.
+(* ------------------------------------------------------------------ *)
+(* whole programs *)
+
+Definition tr_out (t : ea_out * option ea * list aev) : ea_out := fst (fst t).
+Definition tr_st (t : ea_out * option ea * list aev) : option ea := snd (fst t).
+Definition tr_ev (t : ea_out * option ea * list aev) : list aev := snd t.
+
+Definition tr_obs (tr : list (ea_out * option ea * list aev)) : list (ea_out * option (list N)) :=
+  map (fun t => (tr_out t, st_abs (tr_st t))) tr.
+Definition tr_flags (tr : list (ea_out * option ea * list aev)) : list bool :=
+  map (fun t => refused (tr_ev t)) tr.
+
+(* C12 M1: for every program and every oracle the model runs without Fault / AssertFail, keeps
+   its invariant (size <= alloc = length of the storage) and shows the client exactly what the
+   ideal array shows (the flags say in which operations the allocator refused a request) *)
+Theorem ea_run_refines ssz ops : forall st o,
+  st_inv st -> Forall ea_op_ok ops ->
+  exists tr,
+    ea_run 2 4 2 ssz ops st o = Ok tr /\
+    Forall (fun t => st_inv (tr_st t)) tr /\
+    tr_obs tr = ea_spec_run ops (st_abs st) (tr_flags tr).
+Proof.
+  induction ops as [|op ops IH]; intros st o Hi Hok.
+  - exists []. repeat split. constructor.
+  - inversion Hok as [|? ? Hop Hops]; subst.
+    destruct (ea_step_ok ssz op st o Hi Hop) as (x & st1 & o1 & ev & Hs & Hi1 & Hspec & _).
+    destruct (IH st1 o1 Hi1 Hops) as (tr & Hr & Hf & Hobs).
+    cbn [ea_run]. rewrite Hs. cbn [bind]. rewrite Hr. cbn [bind].
+    eexists. split; [reflexivity|]. split.
+    + constructor; [exact Hi1|exact Hf].
+    + cbn [tr_obs tr_flags map ea_spec_run tl]. unfold tr_out, tr_st, tr_ev; cbn [fst snd].
+      rewrite Hspec. f_equal. exact Hobs.
+Qed.
+
+(* C12 M2: when no request is refused the storage bound holds after every operation *)
+Theorem ea_run_capacity ssz ops : forall st o tr,
+  st_inv st -> Forall ea_op_ok ops -> st_cap st ->
+  ea_run 2 4 2 ssz ops st o = Ok tr ->
+  Forall (fun t => refused (tr_ev t) = false) tr ->
+  Forall (fun t => st_cap (tr_st t)) tr.
+Proof.
+  induction ops as [|op ops IH]; intros st o tr Hi Hok Hc Hr Hnf.
+  - cbn in Hr. inversion Hr. constructor.
+  - inversion Hok as [|? ? Hop Hops]; subst.
+    destruct (ea_step_ok ssz op st o Hi Hop) as (x & st1 & o1 & ev & Hs & Hi1 & _ & _ & Hcap & _).
+    cbn [ea_run] in Hr. rewrite Hs in Hr. cbn [bind] in Hr.
+    destruct (ea_run 2 4 2 ssz ops st1 o1) as [tr1| | |] eqn:E; cbn [bind] in Hr; try discriminate.
+    inversion Hr; subst tr. inversion Hnf as [|? ? Hnf1 Hnf2]; subst.
+    unfold tr_ev in Hnf1; cbn [snd] in Hnf1.
+    constructor.
+    + unfold tr_st; cbn [fst snd]. apply Hcap; assumption.
+    + eapply IH; eauto.
+Qed.
+
+(* the ghost heap is a multiset: replaying events commutes with permutations *)
+Lemma remove1_perm_cons x h k : remove1 x h = Some k -> Permutation h (x :: k).
+Proof.
+  revert k. induction h as [|y h IH]; intros k H; cbn [remove1] in H; [discriminate|].
+  destruct (N.eqb_spec x y) as [->|Hne].
+  - inversion H; subst. apply Permutation_refl.
+  - destruct (remove1 x h) as [k'|] eqn:E; [|discriminate]. inversion H; subst.
+    eapply Permutation_trans; [apply perm_skip, IH; reflexivity|]. apply perm_swap.
+Qed.
+
+Lemma remove1_some x h : In x h -> exists k, remove1 x h = Some k.
+Proof.
+  induction h as [|y h IH]; intros Hin; [destruct Hin|]. cbn [remove1].
+  destruct (N.eqb_spec x y) as [->|Hne]; [eauto|].
+  destruct Hin as [->|Hin]; [congruence|]. destruct (IH Hin) as (k & ->). eauto.
+Qed.
+
+Lemma remove1_perm x h h' k :
+  Permutation h h' -> remove1 x h = Some k ->
+  exists k', remove1 x h' = Some k' /\ Permutation k k'.
+Proof.
+  intros Hp H. pose proof (remove1_perm_cons _ _ _ H) as H1.
+  assert (Hin : In x h') by (eapply Permutation_in; [exact Hp|]; eapply Permutation_in;
+                             [apply Permutation_sym; exact H1 | left; reflexivity]).
+  destruct (remove1_some _ _ Hin) as (k' & Hk'). exists k'. split; [exact Hk'|].
+  pose proof (remove1_perm_cons _ _ _ Hk') as H2.
+  apply (Permutation_cons_inv (a := x)).
+  eapply Permutation_trans; [apply Permutation_sym; exact H1|].
+  eapply Permutation_trans; [exact Hp|exact H2].
+Qed.
+
+Lemma heap_apply_perm h h' e k :
+  Permutation h h' -> heap_apply h e = Some k ->
+  exists k', heap_apply h' e = Some k' /\ Permutation k k'.
+Proof.
+  intros Hp H. destruct e as [sz ok|old sz ok|sz]; cbn [heap_apply] in *.
+  - destruct ok; inversion H; subst; eexists; split; try reflexivity; auto.
+  - destruct old as [o|].
+    + destruct (remove1 o h) as [r|] eqn:E; [|destruct ok; discriminate].
+      destruct (remove1_perm _ _ _ _ Hp E) as (r' & -> & Hr).
+      destruct ok; inversion H; subst; eexists; split; try reflexivity; auto.
+    + destruct ok; inversion H; subst; eexists; split; try reflexivity; auto.
+  - eapply remove1_perm; eauto.
+Qed.
+
+Lemma heap_run_perm evs : forall h h' k,
+  Permutation h h' -> heap_run h evs = Some k ->
+  exists k', heap_run h' evs = Some k' /\ Permutation k k'.
+Proof.
+  induction evs as [|e evs IH]; intros h h' k Hp H; cbn [heap_run] in *.
+  - inversion H; subst. eauto.
+  - destruct (heap_apply h e) as [h1|] eqn:E; [|discriminate].
+    destruct (heap_apply_perm _ _ _ _ Hp E) as (h1' & -> & Hp1). eapply IH; eauto.
+Qed.
+
+(* C14 M3 for whole programs: replaying the allocation events of a run on the ghost heap leaves
+   exactly the blocks the array still owns plus those handed to the client *)
+Fixpoint tr_handed (ops : list ea_op) (st : option ea) (tr : list (ea_out * option ea * list aev))
+  : list N :=
+  match ops, tr with
+  | op :: ops', t :: tr' => handed op (tr_out t) st ++ tr_handed ops' (tr_st t) tr'
+  | _, _ => []
+  end.
+
+Lemma last_cons_default {A} (l : list A) : forall x d d', last (x :: l) d = last (x :: l) d'.
+Proof. induction l as [|y l IH]; intros x d d'; [reflexivity|]. cbn [last] in *. apply (IH y). Qed.
+
+Lemma last_cons_cons {A} (l : list A) d1 d0 : last (d1 :: l) d0 = last l d1.
+Proof. destruct l as [|a l]; [reflexivity|]. cbn [last]. apply (last_cons_default l a d0 d1). Qed.
+
+Definition tr_final (st : option ea) (tr : list (ea_out * option ea * list aev)) : option ea :=
+  last (map tr_st tr) st.
+
+Theorem ea_run_no_leak ssz ops : forall st o tr rest,
+  st_inv st -> Forall ea_op_ok ops ->
+  ea_run 2 4 2 ssz ops st o = Ok tr ->
+  exists h, heap_run (st_owned ssz st ++ rest) (concat (map tr_ev tr)) = Some h /\
+            Permutation h (st_owned ssz (tr_final st tr) ++ tr_handed ops st tr ++ rest).
+Proof.
+  induction ops as [|op ops IH]; intros st o tr rest Hi Hok Hr.
+  - cbn in Hr. inversion Hr; subst. cbn. perm_refl.
+  - inversion Hok as [|? ? Hop Hops]; subst.
+    destruct (ea_step_ok ssz op st o Hi Hop) as (x & st1 & o1 & ev & Hs & Hi1 & _ & _ & _ & _ & Hh).
+    cbn [ea_run] in Hr. rewrite Hs in Hr. cbn [bind] in Hr.
+    destruct (ea_run 2 4 2 ssz ops st1 o1) as [tr1| | |] eqn:E; cbn [bind] in Hr; try discriminate.
+    inversion Hr; subst tr. clear Hr.
+    destruct (Hh rest) as (h1 & Hh1 & Hp1).
+    cbn [map concat tr_ev snd]. rewrite heap_run_app, Hh1.
+    destruct (IH st1 o1 tr1 (handed op x st ++ rest) Hi1 Hops E) as (h2 & Hh2 & Hp2).
+    destruct (heap_run_perm _ _ _ _ (Permutation_sym Hp1) Hh2) as (h3 & Hh3 & Hp3).
+    exists h3. split; [exact Hh3|].
+    eapply Permutation_trans; [apply Permutation_sym; exact Hp3|].
+    eapply Permutation_trans; [exact Hp2|].
+    unfold tr_final. cbn [map tr_st fst snd tr_handed tr_out].
+    replace (last (st1 :: map tr_st tr1) st) with (last (map tr_st tr1) st1).
+    2:{ symmetry. apply last_cons_cons. }
+    rewrite <- app_assoc. apply Permutation_app_head.
+    rewrite !app_assoc. apply Permutation_app_tail. apply Permutation_app_comm.
+Qed.
+(* ------------------------------------------------------------------ *)
+(* corollaries in the form used by the property files *)
+
+(* get: a record that exists lies inside the storage block and is the ideal record *)
+Theorem ea_get_inside e pos reclen :
+  ea_inv e -> 0 < reclen -> (pos + 1) * reclen <= ea_size e ->
+  ea_get e pos reclen + reclen <= N.of_nat (length (ea_buf e)) /\
+  mem_read (ea_buf e) (ea_get e pos reclen) reclen =
+  Ok (firstn (N.to_nat reclen) (skipn (N.to_nat (pos * reclen)) (ea_abs e))).
+Proof.
+  intros Hi Hr Hp. pose proof Hi as (Hs & Hl & Ha).
+  assert (pos < ea_size e / reclen).
+  { assert (pos + 1 <= ea_size e / reclen) by (apply N.div_le_lower_bound; lia). lia. }
+  rewrite Hl. apply ea_get_record; assumption.
+Qed.
+
+(* export hands over exactly the contents *)
+Theorem ea_export_exact ssz e reclen o b n st' o' ev :
+  ea_inv e -> 0 < reclen ->
+  ea_step 2 4 2 ssz (OExport reclen) (Some e) o = Ok (XExport true b n, st', o', ev) ->
+  b = ea_abs e /\ n = ea_size e / reclen /\ st' = None /\ refused ev = false.
+Proof.
+  intros Hi Hr H.
+  destruct (ea_step_ok ssz (OExport reclen) (Some e) o Hi Hr) as (x & st1 & o1 & ev1 & Hs & _ & Hspec & _).
+  rewrite H in Hs. inversion Hs; subst. cbn [ea_spec_step st_abs option_map] in Hspec.
+  destruct (refused ev1); [discriminate|]. inversion Hspec; subst.
+  rewrite ideal_len_abs by exact Hi. destruct st1; [discriminate|]. auto.
+Qed.
+
+(* C14 M1 for the array: a refused request makes the operation report failure and leaves the
+   array - every field - exactly as it was; the invariant (hence every theorem above) still holds *)
+Theorem ea_fail_unchanged ssz op st o x st' o' ev :
+  st_inv st -> ea_op_ok op ->
+  ea_step 2 4 2 ssz op st o = Ok (x, st', o', ev) ->
+  refused ev = true -> is_shrink op = false ->
+  st' = st /\ x = ea_err_out op /\ st_inv st'.
+Proof.
+  intros Hi Hok H Hrf Hns.
+  destruct (ea_step_ok ssz op st o Hi Hok) as (x1 & st1 & o1 & ev1 & Hs & Hi1 & _ & Hfail & _).
+  rewrite H in Hs. inversion Hs; subst. destruct (Hfail Hrf Hns). auto.
+Qed.
+
+(* C14 M2 for the array: shrink and free return normally and do what the ideal array does,
+   whatever the allocator answers (in particular when it refuses everything) *)
+Theorem ea_infallible ssz op e o :
+  ea_inv e -> ea_op_ok op -> (is_shrink op = true \/ op = OFree) ->
+  exists st' o' ev,
+    ea_step 2 4 2 ssz op (Some e) o = Ok (XUnit, st', o', ev) /\ st_inv st' /\
+    st_abs st' = snd (ea_spec_step op (Some (ea_abs e)) false).
+Proof.
+  intros Hi Hok Hop.
+  destruct (ea_step_ok ssz op (Some e) o Hi Hok) as (x & st1 & o1 & ev & Hs & Hi1 & Hspec & _).
+  cbn [st_abs option_map] in Hspec.
+  destruct Hop as [Hsh| ->].
+  - destruct op; try discriminate. cbn [ea_spec_step] in *. inversion Hspec; subst.
+    eexists _, _, _. split; [exact Hs|]. split; [exact Hi1|]. symmetry. assumption.
+  - cbn [ea_spec_step] in *. inversion Hspec; subst.
+    eexists _, _, _. split; [exact Hs|]. split; [exact Hi1|]. symmetry. assumption.
+Qed.
+
+(* C14 M3 for one operation: the blocks live after the operation are those the array owns now
+   plus what was handed to the client; after a refused request (state unchanged) the same as before *)
+Theorem ea_step_no_leak ssz op st o x st' o' ev rest :
+  st_inv st -> ea_op_ok op ->
+  ea_step 2 4 2 ssz op st o = Ok (x, st', o', ev) ->
+  exists h, heap_run (st_owned ssz st ++ rest) ev = Some h /\
+            Permutation h (st_owned ssz st' ++ handed op x st ++ rest).
+Proof.
+  intros Hi Hok H.
+  destruct (ea_step_ok ssz op st o Hi Hok) as (x1 & st1 & o1 & ev1 & Hs & _ & _ & _ & _ & _ & Hh).
+  rewrite H in Hs. inversion Hs; subst. apply Hh.
+Qed.
+
+(* C12 M2 for one operation *)
+Theorem ea_capacity_step ssz op st o x st' o' ev :
+  st_inv st -> ea_op_ok op ->
+  ea_step 2 4 2 ssz op st o = Ok (x, st', o', ev) ->
+  (establishes_cap op x ev -> st_cap st') /\ (refused ev = false -> st_cap st -> st_cap st').
+Proof.
+  intros Hi Hok H.
+  destruct (ea_step_ok ssz op st o Hi Hok) as (x1 & st1 & o1 & ev1 & Hs & _ & _ & _ & Hc1 & Hc2 & _).
+  rewrite H in Hs. inversion Hs; subst. auto.
+Qed.
+
+(* after a growing resize(): at most twice the contents (or exactly the contents) *)
+Theorem ea_grow_bound e nsize o e' o' ev :
+  ea_inv e -> nsize < W ->
+  resize_m 2 4 2 e nsize o = Ok (true, e', o', ev) ->
+  ea_alloc e < ea_alloc e' -> ea_alloc e' <= 2 * ea_size e' /\ ea_alloc e' / 4 <= ea_size e'.
+Proof.
+  intros Hi Hn H Hg.
+  destruct (resize_spec e nsize o Hi Hn) as (ok & e1 & o1 & ev1 & Hs & P1 & _).
+  rewrite H in Hs. inversion Hs; subst.
+  destruct (P1 eq_refl) as (_ & Hs1 & _ & Hc & Hgb & _). rewrite Hs1. auto.
+Qed.
+
+(* ------------------------------------------------------------------ *)
+(* examples: the hypotheses are satisfiable and the statements are not vacuous *)
+
+Definition ex_prog : list ea_op :=
+  [OInit 2 3 170; OAppend [1; 2; 3; 4] 2 2; OAppend [9] 9223372036854775808 2;
+   OShrink 1 5; OResize 4 2 7; OGet 1 4; OTruncate; OExportdup 2; OExport 3].
+
+Example ex_prog_ok : Forall ea_op_ok ex_prog.
+Proof.
+  unfold ex_prog. repeat constructor; cbn; try lia; rewrite W_val; intros; try lia.
+Qed.
+
+Example ex_prog_runs :
+  exists tr, ea_run 2 4 2 24 ex_prog None all_grant = Ok tr /\
+             map tr_out tr =
+             [XRc true; XRc true; XRc false; XUnit; XRc true; XRec [170; 7; 7; 7]; XRc true;
+              XExport true [170; 170; 170; 170; 170; 7; 7; 7] 4;
+              XExport true [170; 170; 170; 170; 170; 7; 7; 7] 2].
+Proof. eexists. split; vm_compute; reflexivity. Qed.
+
+(* one refused request: the append fails and the array is the same afterwards *)
+Example ex_refused :
+  exists tr, ea_run 2 4 2 24 [OInit 1 1 5; OAppend [6; 7] 2 1; OGetsize 1] None
+                    {| ans := [true; true; false]; dflt := true |} = Ok tr /\
+             map tr_out tr = [XRc true; XRc false; XSize 1].
+Proof. eexists. split; vm_compute; reflexivity. Qed.
+
+(* the storage bound without rounding is false: init(7,1); shrink(6,1) leaves alloc 7, size 1 *)
+Example ea_capacity_strict_refuted :
+  exists tr e,
+    ea_run 2 4 2 24 [OInit 7 1 0; OShrink 6 1] None all_grant = Ok tr /\
+    tr_final None tr = Some e /\ ea_size e = 1 /\ ea_alloc e = 7 /\
+    cap_strict (ea_size e) (ea_alloc e) = false /\ cap_ok (ea_size e) (ea_alloc e) = true.
+Proof. eexists. eexists. repeat split; vm_compute; reflexivity. Qed.
